@@ -179,6 +179,7 @@ type FnTrans struct {
 	singleAssignCache map[*ssa.Alloc]*ssa.Store
 	stableFV          map[*ssa.FreeVar]bool
 	rangeDepth        int
+	lastSelIdx        string
 	privCells         []*Ptr
 	cbresCache        map[string]string
 	collectUnlocked   *[]string // while evaluating a callee's requires: lock components it needs unlocked (it acquires them)
